@@ -124,6 +124,15 @@ def run(tier, seed):
             glob["rename"] = {"bio": "Biography"}
         if rng.random() < 0.2 and all(p["engine"] == pk[0][0]["engine"] for p, _ in pk):
             glob["overrides"] = [{"go_type": "example.com/y.Name", "column": "authors.name"}]
+        engines = set(p["engine"] for p, _ in pk)
+        if len(engines) > 1 and not shared and rng.random() < 0.5:
+            # a configuration that mixes engines must tag its global overrides with an engine; what a package receives must
+            # still not depend on which other packages (and engines) are listed next to it
+            glob["overrides"] = rng.sample([{"go_type": "example.com/y.PgText", "db_type": "text", "engine": "postgresql", "nullable": True},
+                                            {"go_type": "example.com/y.MyText", "db_type": "text", "engine": "mysql", "nullable": True},
+                                            {"go_type": "example.com/y.Name", "column": "authors.name", "engine": rng.choice(["postgresql", "mysql"])},
+                                            {"go_type": "example.com/y.Big", "db_type": "bigint", "engine": "mysql"}], rng.randint(1, 3))
+            rep.count("mixed-engines-with-tagged-global-overrides")
         pkgs = [p for p, _ in pk]
         orders = [list(range(k))]
         perms = list(itertools.permutations(range(k)))
